@@ -148,6 +148,116 @@ case("C17", "C17-m-handoff-index", "mutant", "release wakes waiter i but admits 
 case("C17", "C17-b-tryacquire-explicit", "benign", "TryAcquire with explicit unlocks instead of defer",
      edits=[("internal/pqueue/pqueue.go", "\tq.mu.Lock()\n\tdefer q.mu.Unlock()\n\tif len(q.active)+len(q.queued) < q.max {\n\t\tq.active = append(q.active, &e)\n\t\treturn q.releaseFn(&e), nil\n\t}\n\treturn nil, nil\n", "\tq.mu.Lock()\n\tif len(q.active)+len(q.queued) < q.max {\n\t\tq.active = append(q.active, &e)\n\t\tq.mu.Unlock()\n\t\treturn q.releaseFn(&e), nil\n\t}\n\tq.mu.Unlock()\n\treturn nil, nil\n")])
 
+# ---------------------------------------------------------------- C01
+case("C01", "C01-seed1", "mutant", "seeded: EOF checks only run once (verified flag), Seek does not clear it",
+     patch="seeded/C01-1/patch.diff", expect=[("C01.R2", "Read", "size test"), ("C01.R4", "Seek", "verified")])
+case("C01", "C01-seed2", "mutant", "seeded: external-URL reader built without WithDesc",
+     patch="seeded/C01-2/patch.diff", expect=[("C01.R1", "blobGetExternal", "NewReader")])
+case("C01", "C01-m-cleaneof", "mutant", "digest mismatch keeps the original EOF",
+     edits=[("types/blob/reader.go", "\t\t} else if r.desc.Digest != r.digester.Digest() {\n\t\t\terr = fmt.Errorf(\"%w [expected %s, calculated %s]: %w\", errs.ErrDigestMismatch, r.desc.Digest.String(), r.digester.Digest().String(), err)\n\t\t}", "\t\t} else if r.desc.Digest != r.digester.Digest() {\n\t\t\tr.desc.Digest = r.digester.Digest()\n\t\t}")],
+     expect=[("C01.R2", "Read", "mismatch returns")])
+case("C01", "C01-m-seekdigester", "mutant", "Seek keeps the old digester",
+     edits=[("types/blob/reader.go", "\tr.digester = r.desc.DigestAlgo().Digester()\n\tr.reader = io.TeeReader(rdr, r.digester.Hash())\n\tr.readBytes = 0\n", "\tr.reader = io.TeeReader(rdr, r.digester.Hash())\n\tr.readBytes = 0\n")],
+     expect=[("C01.R4", "Seek", "digester")])
+case("C01", "C01-m-limit", "mutant", "LimitRead returns the underlying error when the limit is exceeded after the read",
+     edits=[("internal/limitread/limitread.go", "\tlr.Limit -= int64(n)\n\tif lr.Limit < 0 {\n\t\treturn n, fmt.Errorf(\"read limit exceeded%.0w\", errs.ErrSizeLimitExceeded)\n\t}\n", "\tlr.Limit -= int64(n)\n\tif lr.Limit < 0 {\n\t\treturn n, err\n\t}\n")],
+     expect=[("C01.R3", "Read", "limit exceeded")])
+case("C01", "C01-m-getdata", "mutant", "GetData skips the digest comparison",
+     edits=[("types/descriptor/descriptor.go", "\tif d.Digest != d.DigestAlgo().FromBytes(d.Data) {\n\t\treturn nil, errs.ErrParsingFailed\n\t}\n", "")],
+     expect=[("C01.R5", "GetData", "digest compared")])
+case("C01", "C01-m-contentrange", "mutant", "resume accepted without Content-Range",
+     edits=[("internal/reghttp/http.go", "\t\t\tif httpReq.Header.Get(\"Range\") != \"\" && resp.resp.Header.Get(\"Content-Range\") == \"\" {\n\t\t\t\tdropHost = true\n\t\t\t\t_ = resp.resp.Body.Close()\n\t\t\t\treturn fmt.Errorf(\"range request not supported by server\")\n\t\t\t}\n", "")],
+     expect=[("C01.R6", "next", "Content-Range")])
+case("C01", "C01-b-readorder", "benign", "size comparisons in Read swapped",
+     edits=[("types/blob/reader.go", "\t\t} else if r.readBytes < r.desc.Size {\n\t\t\terr = fmt.Errorf(\"%w [expected %d, received %d]: %w\", errs.ErrShortRead, r.desc.Size, r.readBytes, err)\n\t\t} else if r.readBytes > r.desc.Size {\n\t\t\terr = fmt.Errorf(\"%w [expected %d, received %d]: %w\", errs.ErrSizeLimitExceeded, r.desc.Size, r.readBytes, err)\n\t\t}",
+            "\t\t} else if r.readBytes > r.desc.Size {\n\t\t\terr = fmt.Errorf(\"%w [expected %d, received %d]: %w\", errs.ErrSizeLimitExceeded, r.desc.Size, r.readBytes, err)\n\t\t} else if r.readBytes < r.desc.Size {\n\t\t\terr = fmt.Errorf(\"%w [expected %d, received %d]: %w\", errs.ErrShortRead, r.desc.Size, r.readBytes, err)\n\t\t}")])
+
+# ---------------------------------------------------------------- C05
+case("C05", "C05-seed2", "mutant", "seeded: layout BlobPut wraps the stream in io.LimitReader",
+     patch="seeded/C05-2/patch.diff", expect=[("C05.R1", "BlobPut", "whole stream")])
+case("C05", "C05-m-renamefirst", "mutant", "layout BlobPut accepts a digest mismatch",
+     edits=[("scheme/ocidir/blob.go", "\t} else if d.Digest != digester.Digest() {\n\t\treturn d, fmt.Errorf(\"unexpected digest, expected %s, computed %s\", d.Digest, digester.Digest())\n\t}\n", "\t} else if d.Digest != digester.Digest() {\n\t\to.slog.Debug(\"digest mismatch\")\n\t}\n")],
+     expect=[("C05.R1", "BlobPut", "digest comparison")])
+case("C05", "C05-m-chunksize", "mutant", "chunked upload commits although the size differs",
+     edits=[("scheme/reg/blob.go", "\tif d.Size != 0 && chunkStart != d.Size {\n\t\treturn d, fmt.Errorf(\"blob content size does not match descriptor, expected %d, received %d%.0w\", d.Size, chunkStart, errs.ErrMismatch)\n\t}\n", "")],
+     expect=[("C05.R2", "blobPutUploadChunked", "size comparison")])
+case("C05", "C05-m-norewind", "mutant", "chunked fall-back although the rewind did not reach offset 0",
+     edits=[("scheme/reg/blob.go", "\t\tif errR != nil || offset != 0 {\n", "\t\tif errR != nil || offset < 0 {\n")],
+     expect=[("C05.R3", "BlobPut", "failed rewind")])
+case("C05", "C05-m-nocancel", "mutant", "failed chunked upload leaves the session open",
+     edits=[("scheme/reg/blob.go", "\td, err = reg.blobPutUploadChunked(ctx, r, d, putURL, rdr)\n\tif err != nil {\n\t\t_ = reg.blobUploadCancel(ctx, r, putURL)\n\t}\n\treturn d, err\n", "\td, err = reg.blobPutUploadChunked(ctx, r, d, putURL, rdr)\n\treturn d, err\n")],
+     expect=[("C05.R3", "BlobPut", "cancels")])
+case("C05", "C05-b-bufio", "benign", "layout BlobPut reads the teed stream through a bufio.Reader",
+     edits=[("scheme/ocidir/blob.go", "\ti, err := io.Copy(tmpFile, rdr)\n", "\ti, err := io.Copy(tmpFile, bufio.NewReader(rdr))\n"),
+            ("scheme/ocidir/blob.go", "import (\n\t\"context\"\n", "import (\n\t\"bufio\"\n\t\"context\"\n")])
+
+# ---------------------------------------------------------------- C13
+case("C13", "C13-D9", "mutant", "historical defect D9 re-introduced: child data filled from the parent's body",
+     patch="selftest/regress/D9.diff", expect=[("C13.R3", "dagPut", "Data of")])
+case("C13", "C13-seed1", "mutant", "seeded: existing inline data kept when its length equals the size",
+     patch="seeded/C13-1/patch.diff", expect=[("C13.R3", "dagPut", "data branch")])
+case("C13", "C13-seed2", "mutant", "seeded: unchanged layers copied from the image source instead of the layer's own source",
+     patch="seeded/C13-2/patch.diff", expect=[("C13.R5", "Apply", "copy source")])
+case("C13", "C13-m-src", "mutant", "manifest pushed to the source reference",
+     edits=[("mod/dag.go", "\t\trPut := rTgt\n", "\t\trPut := rSrc\n")],
+     expect=[("C13.R1", "dagPut", "ManifestPut")])
+case("C13", "C13-m-nocompare", "mutant", "pushed layer digest not compared with the computed one",
+     edits=[("mod/mod.go", "\t\t\t\t} else if dl.newDesc.Digest != dNew.Digest {\n\t\t\t\t\treturn nil, fmt.Errorf(\"layer digest mismatch, pushed %s, expected %s\", dNew.Digest.String(), dl.newDesc.Digest.String())\n\t\t\t\t}\n", "\t\t\t\t}\n")],
+     expect=[("C13.R4", "Apply", "Digest compared")])
+
+# ---------------------------------------------------------------- C14
+case("C14", "C14-seed1", "mutant", "seeded: seen-map key keeps the digest of the referencing manifest",
+     patch="seeded/C14-1/patch.diff", expect=[("C14.R2", "imageCopy", "gate key")])
+case("C14", "C14-seed2", "mutant", "seeded: a declined mount is remembered and later mounts are not attempted",
+     patch="seeded/C14-2/patch.diff", expect=[("C14.R1", "BlobMount", "unconditional")])
+case("C14", "C14-m-nohead", "mutant", "BlobCopy fetches from the source without asking the target first",
+     edits=[("blob.go", "\tif _, err := rc.BlobHead(ctx, refTgt, tDesc); err == nil {", "\tif _, err := rc.BlobHead(ctx, refSrc, tDesc); err != nil {")],
+     expect=[("C14.R1", "BlobCopy", "")])
+case("C14", "C14-m-samerepo", "mutant", "layers copied even when source and target repository are the same",
+     edits=[("image.go", "\tif mSrcImg, ok := mSrc.(manifest.Imager); ok && mSrc.IsSet() && !ref.EqualRepository(refSrc, refTgt) {", "\tif mSrcImg, ok := mSrc.(manifest.Imager); ok && mSrc.IsSet() {")],
+     expect=[("C14.R3", "imageCopyOpt", "content goroutine")])
+case("C14", "C14-m-alwaysput", "mutant", "manifest pushed even when the target already has it",
+     edits=[("image.go", "\tif mTgt == nil || sDig != mTgt.GetDescriptor().Digest || opt.forceRecursive {\n\t\terr = rc.ManifestPut(ctx, refTgt, mSrc, mOpts...)", "\tif mTgt == nil || sDig != mTgt.GetDescriptor().Digest || opt.forceRecursive || !child {\n\t\terr = rc.ManifestPut(ctx, refTgt, mSrc, mOpts...)")],
+     expect=[("C14.R4", "imageCopyOpt", "manifest write")])
+case("C14", "C14-b-keyhelper", "benign", "gate key computed by a small helper",
+     edits=[("image.go", "\tseenCB, err := imageSeenOrWait(ctx, opt, refTgt.SetTag(\"\").CommonName(), \"\", d.Digest, []digest.Digest{})", "\tseenCB, err := imageSeenOrWait(ctx, opt, seenRepoKey(refTgt), \"\", d.Digest, []digest.Digest{})"),
+            ("image.go", "// imageSeenOrWait returns either a callback", "func seenRepoKey(r ref.Ref) string {\n\treturn r.SetTag(\"\").CommonName()\n}\n\n// imageSeenOrWait returns either a callback")])
+
+# ---------------------------------------------------------------- C18
+case("C18", "C18-seed1", "mutant", "seeded: all filters of a list merged into one wrongly anchored expression",
+     patch="seeded/C18-1/patch.diff", expect=[("C18.R2", "filterCompile", "filter pattern")])
+case("C18", "C18-m-checkwrites", "mutant", "check action no longer returns before the copy",
+     edits=[("cmd/regsync/root.go", "\tif action == actionCheck {\n\t\treturn nil\n\t}\n\n\t// wait for parallel tasks", "\t// wait for parallel tasks")],
+     expect=[("C18.R1", "processRef", "")])
+case("C18", "C18-m-unanchored", "mutant", "deny expressions compiled without the end anchor",
+     edits=[("cmd/regsync/root.go", "\t\t\texp, err := regexp.Compile(\"^\" + filter + \"$\")\n\t\t\tif err != nil {\n\t\t\t\treturn result, err\n\t\t\t}\n\t\t\tfor i := range result {", "\t\t\texp, err := regexp.Compile(\"^\" + filter)\n\t\t\tif err != nil {\n\t\t\t\treturn result, err\n\t\t\t}\n\t\t\tfor i := range result {")],
+     expect=[("C18.R2", "filterList", "filter pattern")])
+case("C18", "C18-m-backupsrc", "mutant", "backup copies the new source image instead of the old target",
+     edits=[("cmd/regsync/root.go", "\t\terr = opts.rc.ImageCopy(ctx, tgt, backupRef)", "\t\terr = opts.rc.ImageCopy(ctx, src, backupRef)")],
+     expect=[("C18.R3", "processRef", "")])
+case("C18", "C18-b-noncapture", "benign", "filters wrapped in a non-capturing group",
+     edits=[("cmd/regsync/root.go", "\t\t\texp, err := regexp.Compile(\"^\" + filter + \"$\")\n\t\t\tif err != nil {\n\t\t\t\treturn result, err\n\t\t\t}\n\t\t\tfor i := range in {", "\t\t\texp, err := regexp.Compile(\"^(?:\" + filter + \")$\")\n\t\t\tif err != nil {\n\t\t\t\treturn result, err\n\t\t\t}\n\t\t\tfor i := range in {")])
+
+# ---------------------------------------------------------------- C20
+case("C20", "C20-D11", "mutant", "historical defect D11 re-introduced: ManifestDelete uses an unvalidated digest as a file name",
+     patch="selftest/regress/D11.diff", expect=[("C20.R1", "ManifestDelete", "os.Remove")])
+case("C20", "C20-seed1", "mutant", "seeded: archive extraction materialises symlinks behind a lexical check",
+     patch="seeded/C20-1/patch.diff", expect=[("C20.R2", "Extract", "os.Symlink")])
+case("C20", "C20-seed2", "mutant", "seeded: backslashes rewritten to slashes after the title was cleaned",
+     patch="seeded/C20-2/patch.diff", expect=[("C20.R3", "runArtifactGet", "")])
+case("C20", "C20-m-unrooted", "mutant", "tar entry names cleaned without the leading slash",
+     edits=[("pkg/archive/tar.go", "\t\tfn := filepath.Join(path, filepath.Clean(\"/\"+hdr.Name))", "\t\tfn := filepath.Join(path, filepath.Clean(hdr.Name))")],
+     expect=[("C20.R2", "Extract", "")])
+case("C20", "C20-m-blobget", "mutant", "layout BlobGet without validating the digest",
+     edits=[("scheme/ocidir/blob.go", "func (o *OCIDir) BlobGet(ctx context.Context, r ref.Ref, d descriptor.Descriptor) (blob.Reader, error) {\n\terr := d.Digest.Validate()\n\tif err != nil {\n\t\treturn nil, fmt.Errorf(\"failed to validate digest %s: %w\", d.Digest.String(), err)\n\t}\n", "func (o *OCIDir) BlobGet(ctx context.Context, r ref.Ref, d descriptor.Descriptor) (blob.Reader, error) {\n\tvar err error\n")],
+     expect=[("C20.R1", "BlobGet", "os.Open")])
+case("C20", "C20-m-export", "mutant", "export writes a descriptor path without validating its digest",
+     edits=[("image.go", "\tif err := desc.Digest.Validate(); err != nil {\n\t\treturn err\n\t}\n\ttarFilename := tarOCILayoutDescPath(desc)", "\ttarFilename := tarOCILayoutDescPath(desc)")],
+     expect=[("C20.R4", "imageExportDescriptor", "descriptor path")])
+case("C20", "C20-b-filepath", "benign", "layout BlobDelete builds its path with filepath.Join",
+     edits=[("scheme/ocidir/blob.go", "\tfile := path.Join(r.Path, \"blobs\", d.Digest.Algorithm().String(), d.Digest.Encoded())\n\treturn os.Remove(file)", "\tfile := filepath.Join(r.Path, \"blobs\", d.Digest.Algorithm().String(), d.Digest.Encoded())\n\treturn os.Remove(file)"),
+            ("scheme/ocidir/blob.go", "\t\"os\"\n\t\"path\"\n", "\t\"os\"\n\t\"path\"\n\t\"path/filepath\"\n")])
+
 def main():
     bad = 0
     for pid, cases in CASES.items():
